@@ -28,6 +28,7 @@ THEOREMS = [
     'C07_sum_n_bits_works', 'C07_sum_n_bits_total_exact',
     'C07_sum_n_bits_easy_works', 'C07_sum_n_bits_easy_total_exact',
     'C07_sum_pow2_m1_works', 'C07_sum_pow2_m1_total_exact', 'C07_new_gates_carry_uuid_labels',
+    'C07_sum_n_bits_results_carry_uuid_labels',
     'C07_sum_n_weighted_bits_works', 'C07_sum_n_weighted_bits_total_exact',
     'C07_sum_n_weighted_bits_naive_works', 'C07_sum_n_weighted_bits_naive_total_exact',
     'C07_sum_two_numbers_works', 'C07_sum_two_numbers_total_exact',
@@ -74,8 +75,9 @@ LEVEL_TEXT = ('every summation generator (add_sum_n_bits in both bases incl. the
 LEVEL_NOTE = ('Coq kernel + vm_compute; translators T1, T4; correspondence harness (order-preserving label renaming '
               'new_%032x -> new_%04x); the *_exact theorems are conditional on the model run returning Ok, the *_works / '
               '*_total_exact theorems discharge that condition for every injective uuid naming function (for '
-              'add_sum_pow2_m1 additionally: "" is neither a gate of the host nor a uuid label; the second is shown '
-              'necessary by C07_pow2_m1_needs_nonempty_uuid_labels); the model is of the '
+              'add_sum_pow2_m1 additionally: "" is not a uuid label - shown necessary by '
+              'C07_pow2_m1_needs_nonempty_uuid_labels - and, for the value corollary only, "" is not a gate of the '
+              'host); the model is of the '
               'repaired code (fixes/D5, D6, D7, D27; D27 corrects the documented bound, the oracle reads the bounds from the docstrings of the tree under test); where Python would leave the weighted loop through the sentinel '
               '`break` with a truncated result the model returns Err (proved unreachable); add_sum_pow2_m1: the value clause asks that the '
               'empty string is not a gate label (filter(None, .) would drop such a label)')
@@ -86,7 +88,8 @@ TECHNIQUE = ('Coq proof: generators as programs of a deep-embedded builder monad
              'invariant; basis resolution as a total function on the Python value; termination by the decreasing measure '
              '|solo| + 2 |pairs| per level (fuel), the non-increasing potential (strict level bound) + measure <= inf '
              '(sentinel), existence invariants for every label in the work lists and pigeonhole for the fresh-label '
-             'retry loop; label provenance of new gates by induction on gate_new-only programs; bounded structural facts by '
+             'retry loop; label provenance of new gates by induction on gate_new-only programs, of the result labels by '
+             'inversion of the scheduler loops; bounded structural facts by '
              'vm_compute; netlist-equality correspondence under vm_compute; direct oracle through '
              'Circuit.evaluate_full_circuit')
 TRUSTED = ['uuid4 is modelled as a counter with a naming function that is universally quantified in every theorem; '
